@@ -766,7 +766,8 @@ def run(sched):
             else:
                 raise ValueError(do)
         hz = sched.get("horizon")
-        await w.loop.drain(horizon=None if hz is None else (last_at + hz) / 1024.0)
+        await w.loop.drain(horizon=None if hz is None else (last_at + hz) / 1024.0,
+                           stop=lambda: len(events) > 30000 or w.loop.time() > 1.5e6)
         for c in w.loop.exceptions:
             exc = c.get("exception")
             ev("loopexc", x=type(exc).__name__ if exc is not None else "message", cls=str(c.get("message", ""))[:60])
